@@ -1,6 +1,6 @@
 (* Wire glue for C18 (ops 18xx): universal value -> history model/spec functions.
    Evaluated both by vm_compute (cases.v) and by the extracted OCaml driver. *)
-From Fzf Require Import Prelude Val HistorySpec HistoryModel.
+From Fzf Require Import Prelude Val HistorySpec HistoryModel HistoryProcSpec HistoryProcModel.
 Open Scope Z_scope.
 
 Definition vfs (f : fs) : val := match f with None => VL [] | Some d => VL [vstr d] end.
@@ -42,9 +42,53 @@ Fixpoint spec_nav_run (n : nav) (ops : list sop) : list str :=
 Definition spec_nav (es : list str) (ops : list sop) : list str :=
   spec_nav_run (mkNav (fun i => nth i es []) (length es) (length es)) ops.
 
+
+(* ---- process level (HistoryProcSpec / HistoryProcModel) ---- *)
+Definition as_hopt (v : val) : hopt :=
+  let t := as_int (arg v 0) in
+  if t =? 0 then HFile (as_str (arg v 1)) else if t =? 1 then HNoFile
+  else if t =? 2 then HSize (as_nat (arg v 1)) else HOther.
+Definition as_layers (v : val) : list (list hopt) := map (fun l => map as_hopt (as_list l)) (as_list v).
+Definition as_ending (v : val) : ending :=
+  let t := as_int v in
+  if t =? 0 then EndAccept true else if t =? 1 then EndAccept false
+  else if t =? 2 then EndPrintQuery else if t =? 3 then EndBecome else EndAbort.
+Definition as_psession (v : val) : psession :=
+  mkP (as_layers (arg v 0)) (map as_sop (as_list (arg v 1))) (as_ending (arg v 2)).
+Definition vcfg (c : hcfg) : val := match c with None => VL [] | Some (p, n) => VL [vstr p; vnat n] end.
+Definition as_cfg (v : val) : hcfg :=
+  match as_list v with p :: n :: _ => Some (as_str p, as_nat n) | _ => None end.
+Fixpoint fsys_of (l : list val) : fsys :=
+  match l with
+  | [] => fun _ => None
+  | e :: r => fs_upd (fsys_of r) (as_str (arg e 0)) (as_fs (arg e 1))
+  end.
+
+(* 1805: runs of the program: [[[path, file]...], [[layers, ops, ending]...]] ->
+   [[[file_after per path], config in effect, seen, query at the end] per run] *)
+Fixpoint d_psessions (paths : list str) (F : fsys) (ss : list psession) : list val :=
+  match ss with
+  | [] => []
+  | s :: r =>
+      match run_psession F s with
+      | Ok (F', c, seen, inp) =>
+          VL [VL (map (fun p => vfs (F' p)) paths); vcfg c; vstrs seen; vstr inp] :: d_psessions paths F' r
+      | Err _ => [verr]
+      end
+  end.
+
 Definition dispatch_history (op : Z) (a : val) : option val :=
   if op =? 1801 then Some (VL (d_sessions (as_nat (arg a 0)) (as_fs (arg a 1)) (map as_session (as_list (arg a 2)))))
   else if op =? 1802 then Some (d_spec_stored (as_nat (arg a 0)) (as_fs (arg a 1)) (as_strs (arg a 2)))
   else if op =? 1803 then Some (vstrs (entries (as_str a)))
   else if op =? 1804 then Some (vstrs (spec_nav (as_strs (arg a 0)) (map as_sop (as_list (arg a 1)))))
+  else if op =? 1805 then
+    Some (VL (d_psessions (map (fun e => as_str (arg e 0)) (as_list (arg a 0))) (fsys_of (as_list (arg a 0)))
+                          (map as_psession (as_list (arg a 1)))))
+  (* 1806: SPEC: layers -> [what the concatenated option list asks for, no size in an earlier layer than a file] *)
+  else if op =? 1806 then
+    Some (VL [vcfg (eff_config (concat (as_layers a))); vbool (layered_ok false (as_layers a))])
+  (* 1807: SPEC: [config, ending, query, path, entries before] -> entries after the run *)
+  else if op =? 1807 then
+    Some (vstrs (proc_step (as_cfg (arg a 0)) (as_ending (arg a 1)) (as_str (arg a 2)) (as_str (arg a 3)) (as_strs (arg a 4))))
   else None.
